@@ -7,7 +7,15 @@ PID = "C04"
 THEOREMS = ["OQuPyVerif.Props.C04.trace_preserved", "OQuPyVerif.Props.C04.hermitian_preserved",
             "OQuPyVerif.Props.C04.influence_unit_of_tables", "OQuPyVerif.Props.C04.influence_unit",
             "OQuPyVerif.Props.C04.influence_conj",
-            "OQuPyVerif.Props.C04.pt_trace_preserved", "OQuPyVerif.Props.C04.pt_hermitian_preserved"]
+            "OQuPyVerif.Props.C04.pt_trace_preserved", "OQuPyVerif.Props.C04.pt_hermitian_preserved",
+            # PT-TEBD norm and reduced-state traces (C10) and the Gibbs state (C11)
+            "OQuPyVerif.Props.C10.norm_step", "OQuPyVerif.Props.C10.norm_one",
+            "OQuPyVerif.Props.C10.site_dissipator_trace_annihilating",
+            "OQuPyVerif.Props.C10.nn_dissipator_trace_annihilating",
+            "OQuPyVerif.Props.C10.dissipators_hermiticity_preserving",
+            "OQuPyVerif.Props.C11.gibbs_trace_one", "OQuPyVerif.Props.C11.gibbs_hermitian",
+            "OQuPyVerif.Props.C11.gibbs_normalised_hermitian"]
+EXTRA_MODULES = ["OQuPyVerif.Props.C10", "OQuPyVerif.Props.C11"]
 TOL = 1e-8
 HYP_TOL = 1e-20      # residuals are squared moduli
 
@@ -109,6 +117,16 @@ def search(res):
                     res.fail("PtTempo+compute_dynamics:%s" % c.split()[0],
                              {"api": "compute_dynamics", "unique": unique, "case": case["desc"],
                               "step": k, "complaint": c})
+    # PT-TEBD norm / traces and the Gibbs state: the oracles of C10 and C11
+    from . import run_C10, run_C11
+    for mod in (run_C10, run_C11):
+        sub = fw.Result(PID, res.tier, res.seed)
+        try:
+            mod.search(sub)
+        except Exception as e:      # an oracle crashing must not hide the others
+            res.notes.append("%s.search raised %r" % (mod.__name__, e))
+        for key, payload in sub.failing:
+            res.fail("%s:%s" % (mod.PID, key), payload)
     # mean-field TEMPO
     for (s, d) in [(0.0, 0.1), (0.5, 0.05)]:
         m = oq.cheap_mft(s, d)
@@ -137,11 +155,17 @@ def run(tier, seed, replay):
                        "satisfy the hypotheses on every run"]
     res.not_shown = ["positive semidefiniteness (needs complete positivity of the Trotterised "
                      "Gaussian-bath map, DESIGN.md §6)",
-                     "PT-TEBD norm and Gibbs-state normalisation are covered under C10 / C11",
+                     "Gibbs-state positivity",
                      "mean-field TEMPO: covered through the same step kernel (C09); no separate theorem here"]
-    fw.standard_pipeline(res, [], THEOREMS)
+    fw.standard_pipeline(res, ["TebdLayers", "ChainLindblad", "ControlCompose", "GibbsLoop"],
+                         THEOREMS, extra_modules=EXTRA_MODULES)
     try:
         correspondence(res, tier, rng)
+        # the PT-TEBD and Gibbs parts of the property: their models, the hypotheses of the norm /
+        # Hermiticity theorems on the real tensors, and the real results (harnesses of C10 / C11)
+        from . import run_C10, run_C11
+        run_C10.correspondence(res, tier, random.Random(seed + 10))
+        run_C11.correspondence(res, tier, random.Random(seed + 11))
     except fw.Infra as e:
         res.oblige("correspondence run", False, str(e))
     return fw.finish(res, search)
